@@ -23,7 +23,7 @@ from ..gen import c02_store as ST
 from . import C01 as P1
 
 PID = "C02"
-COQ_HEADER = ("From Coq Require Import List NArith ZArith.\nFrom SK Require Import lib.Tok lib.LGraph model.C01_Model model.C01_Opts model.C01_String model.C02_Model model.C02_Store model.C02_Api.\n"
+COQ_HEADER = ("From Coq Require Import List NArith ZArith.\nFrom SK Require Import lib.Tok lib.LGraph model.C01_Model model.C01_Opts model.C01_String model.C02_Model model.C02_Store model.C02_Api model.C02_Compare.\n"
               "Import ListNotations.\nOpen Scope Z_scope.\n")
 SHARD = 450
 IMPL_TIMEOUT = 1500
@@ -98,7 +98,7 @@ TESTED_NOT_PROVED = [
     "(oracle on every option / helper / list / history case)",
     "isinstance(order, tuple) in find_unequal_order_edges: ITS graphs whose order is a list are outside the model (the library never builds them)",
 ]
-LEVEL_TEXT = ("Machine-checked proof (Coq, 80 theorems, all closed under the global context) over an executable model of get_rc and RadiusExpand: on every "
+LEVEL_TEXT = ("Machine-checked proof (Coq, 85 theorems, all closed under the global context) over an executable model of get_rc and RadiusExpand: on every "
               "well-formed ITS graph whose standard_order is the order difference the centre contains a bond iff its two orders differ or both atoms "
               "are hydrogens (for ignore_aromaticity ITS graphs: iff the orders differ by at least 1, with a witness that 'differs' alone fails; "
               "stated also on the two sides: for the ITS of a reactant graph G and a product graph H two atoms are joined in the centre iff they are "
@@ -465,7 +465,7 @@ def _obs_dict(d):
     return S([[E.elem_code(k), ([1, E._int(v)] if isinstance(v, int) and not isinstance(v, bool) else [0, E.obs_its(v)])] for k, v in d.items()])
 
 
-PASSES = ("_add_changed_bonds", "_add_hh_bonds", "_add_charge_change_nodes", "_reconnect_rc_edges")
+PASSES = ("_add_changed_bonds", "_add_hh_bonds", "_add_charge_change_nodes", "_reconnect_rc_edges", "_add_bond_order_changes")
 TRUTH_STDS = (0, 0.0, 0.5, -0.5, 1, -1, 1.5, 2, -2.0, 3)
 TRUTH_ELS = ("H", "C", "", "*", "He", ("H", "H"), ("H", "C"), ("C", "H"), ("C", "C"), ("*", "*"))
 
@@ -481,9 +481,107 @@ def _obs_state(rc):
     return [list(o[0]["__set__"]), o[1]]          # atoms in rc.nodes order, bonds as a set
 
 
+ALL_NODE_ATTRS = ["element", "charge", "atom_map", "typesGH", "aromatic", "hcount", "neighbors"]
+ALL_EDGE_ATTRS = ["order", "standard_order", "is_mtg"]
+
+
+def _coq_esel(ea):
+    return "(ES %s)" % " ".join("true" if k in ea else "false" for k in ALL_EDGE_ATTRS)
+
+
+def impl_cmp(case):
+    """compare_graphs (its_decompose.py) on two graphs under several attribute selections, then as the judge of the idempotence clause"""
+    from synkit.Graph.ITS.its_decompose import compare_graphs, get_rc
+    G1, G2 = E.to_nx(case["X"]), E.to_nx(case["Y"])
+    out = [[compare_graphs(G1, G2, list(na), list(ea)), compare_graphs(G2, G1, list(na), list(ea))] for na, ea in case["sels"]]
+    if case.get("defaults"):
+        out.append([compare_graphs(G1, G2), compare_graphs(G2, G1)])
+    rc = get_rc(G1)
+    return [out, compare_graphs(get_rc(rc), rc, list(ALL_NODE_ATTRS), list(ALL_EDGE_ATTRS)), compare_graphs(rc, G1, list(ALL_NODE_ATTRS), list(ALL_EDGE_ATTRS))]
+
+
+def coq_cmp(case):
+    sels = [(na, ea) for na, ea in case["sels"]]
+    if case.get("defaults"):
+        sels.append((["element", "aromatic", "hcount", "charge", "neighbors"], ["order"]))
+    return "run_compare [%s] %s %s" % ("; ".join("(%s, %s)" % (X.coq_keys(na), _coq_esel(ea)) for na, ea in sels), X.coq_xits(case["X"]), X.coq_xits(case["Y"]))
+
+
+def oracle_cmp(case):
+    """the library's own comparator as the judge of 'extracting the centre of a centre changes nothing' (ITS graphs of a recognised class)"""
+    from synkit.Graph.ITS.its_decompose import compare_graphs, get_rc
+    G1 = E.to_nx(case["X"])
+    if its_class(G1) is None:
+        return []
+    rc = get_rc(G1)
+    if not compare_graphs(get_rc(rc), rc, list(ALL_NODE_ATTRS), list(ALL_EDGE_ATTRS)):
+        return [dict(clause="centre-idempotent", detail="compare_graphs(get_rc(get_rc(I)), get_rc(I)) on all attributes is False")]
+    return []
+
+
+def _perturb(rng, g):
+    """a copy of the x-ITS graph g, re-ordered, with at most one difference; returns (copy, what)"""
+    import copy
+    h = copy.deepcopy(g)
+    rng.shuffle(h["nodes"])
+    rng.shuffle(h["edges"])
+    for e in h["edges"]:
+        if rng.random() < 0.5:
+            e[0], e[1] = e[1], e[0]
+    z = rng.random()
+    if z < 0.25 or not h["nodes"]:
+        return h, "same"
+    n, a = rng.choice(h["nodes"])
+    if z < 0.4 and a:
+        k = rng.choice(sorted(a))
+        if k == "typesGH":
+            a[k][rng.randrange(2)][rng.choice((2, 3))] += 1
+        elif k == "neighbors":
+            a[k] = a[k] + ["C"]
+        elif k == "aromatic":
+            a[k] = not a[k]
+        elif k == "element":
+            a[k] = "N" if a[k] != "N" else "O"
+        else:
+            a[k] = a[k] + 1
+        return h, "label " + k
+    if z < 0.5 and a:
+        k = rng.choice(sorted(a))
+        del a[k]
+        return h, "label-absent " + k
+    if z < 0.75 and h["edges"]:
+        e = rng.choice(h["edges"])
+        w = rng.choice(("order", "standard_order", "is_mtg", "is_mtg-absent"))
+        if w == "order":
+            e[2]["order"] = [e[2]["order"][0], e[2]["order"][1] + 1]
+        elif w == "standard_order":
+            e[2]["standard_order"] = e[2]["standard_order"] + 1
+        elif w == "is_mtg":
+            e[2]["is_mtg"] = not e[2].get("is_mtg", False)
+        else:
+            e[2].pop("is_mtg", None)
+        return h, "bond " + w
+    if z < 0.85 and h["edges"]:
+        h["edges"].pop(rng.randrange(len(h["edges"])))
+        return h, "bond-removed"
+    if z < 0.93:
+        h["nodes"] = [x for x in h["nodes"] if x[0] != n]
+        h["edges"] = [e for e in h["edges"] if n not in e[:2]]
+        return h, "atom-removed"
+    ids = [x[0] for x in h["nodes"]]
+    if len(ids) >= 2:
+        u, v = rng.sample(ids, 2)
+        if not any({e[0], e[1]} == {u, v} for e in h["edges"]):
+            h["edges"].append([u, v, {"order": [1, 1], "standard_order": 0}])
+            return h, "bond-added"
+    return h, "same"
+
+
 def impl_api(case):
     from synkit.Graph.Context.radius_expand import RadiusExpand
     from ..tok import S
+    if "sels" in case:
+        return impl_cmp(case)
     if "steps" in case or "truth" in case:
         # the private helpers named in the property's anchors, one by one (a tree without them: nothing to compare)
         if not _has_passes():
@@ -506,6 +604,9 @@ def impl_api(case):
         out.append(_obs_state(rc))
         D._reconnect_rc_edges(I, rc, "order", "standard_order")
         out.append(_obs_state(rc))
+        rc0 = nx.Graph()
+        D._add_bond_order_changes(I, rc0, keys, "order", "standard_order")       # the older "step 1" helper, no caller in the library
+        out.append(_obs_state(rc0))
         return out
     if "nn" in case:
         import networkx as nx
@@ -534,6 +635,8 @@ def _coq_dict(D):
 
 
 def coq_api(case):
+    if "sels" in case:
+        return coq_cmp(case)
     if "steps" in case or "truth" in case:
         if not _has_passes():
             return None
@@ -560,6 +663,8 @@ def oracle_api(case):
     reference on graphs of a recognised class); direct find_nearest_neighbors: the ball around ANY start atoms of the graph"""
     from synkit.Graph.Context.radius_expand import RadiusExpand
     fails = []
+    if "sels" in case:
+        return oracle_cmp(case)
     if "truth" in case:
         return []
     if "steps" in case:
@@ -1929,6 +2034,13 @@ def gen_api(rng, tier):
         if len(g["nodes"]) == 2 and rng.random() < (0.25 if q else 1.0):
             cases.append(dict(kind="api-steps", api=True, steps=True, X=X.canon(g), keys=list(rng.choice(X.KEY_CHOICES)), keep=rng.random() < 0.5))
     cases.append(dict(kind="api-truth", api=True, truth=True, name="api/truth-tables"))
+    # compare_graphs (its_decompose.py): a graph against a re-ordered copy with at most one difference, under PRNG attribute selections
+    sel_pool = [(list(ALL_NODE_ATTRS), list(ALL_EDGE_ATTRS)), (["element", "aromatic", "hcount", "charge", "neighbors"], ["order"]), ([], []), (["element"], ["standard_order"]),
+                (["typesGH", "no_such"], ["is_mtg", "order"]), (["atom_map", "charge"], ["order", "standard_order"]), (["neighbors", "hcount", "aromatic"], ["is_mtg"])]
+    for _ in range(200 if q else 1000):
+        g = X.rand_x(rng, rng.randint(2, 7)) if rng.random() < 0.8 else rng.choice(pool)
+        h, what = _perturb(rng, g)
+        cases.append(dict(kind="api-cmp", api=True, X=g, Y=h, what=what, sels=[rng.choice(sel_pool) for _ in range(3)], defaults=rng.random() < 0.5))
     for c in gen_random_its(rng, 60 if q else 300, "its-rand", maxn=9):
         cases.append(dict(kind="help-neg", I=c["I"], helpers=[rng.choice((-2, -3, -17)), 0, 1]))
     return cases
